@@ -87,6 +87,12 @@ def gen_case(seed, tier, i):
         chosen = rng.sample(tops, min(len(tops), rng.randint(2, 4)))
         for m in chosen:
             b.add('import %s' % m)
+        if rng.random() < 0.6:
+            # imports that cannot be resolved are an everyday state of a buffer
+            miss = rng.choice(['no_such_mod_%d' % rng.randint(1, 9), 'pa.no_sub', 'gi.nothing', 'conftest.deep'])
+            b.add('import %s' % miss, [('infer', 'import ' + miss[:3], None)])
+            b.add('from %s import thing' % miss.split('.')[0].replace('no_such', 'nosuch'),
+                  [('goto', 'import th', {'follow_imports': True})])
         if 'gi.repository' in mods:
             b.add('from gi.repository import Gtk', [('infer', 'import Gt', None), ('complete', 'import ', None)])
             b.add('Gtk.win', [('complete', 'Gtk.', None)])
@@ -170,6 +176,7 @@ class C12(base.Engine):
     }
 
     def execute(self, case):
+        driver.begin_case(case)
         root = driver.new_root('c12')
         try:
             extra = {'cwd': 'w'} if case.get('cwd_in_project') else None
